@@ -954,6 +954,9 @@ func (x *Exec) applyContract(st *State, c *Contract, callee *types.Func, recv *V
 	// 5. assume postconditions
 	x.oldStack = append(x.oldStack, pre)
 	for _, en := range c.Ensures {
+		if en.Internal || clauseUsesFresh(c, en) {
+			continue
+		}
 		if en.quantified() {
 			// quantified callee facts are assumed only on request ("use callee.clause")
 			cc := x.eng.cf.Contracts[x.frame().qual]
